@@ -60,7 +60,7 @@ PROPS = {}
 MANIFEST = {}
 ENGINE = {"name": "coq-formats",
           "path": "coq/Json.v coq/JsonProofs.v coq/Formatters.v coq/FormattersProofs.v coq/Run_Formatters.v coq/CloudEvents.v coq/CloudEventsProofs.v "
-                  "coq/Run_CloudEvents.v harness/jgen harness/cmd/fmth harness/cmd/cloudh lib/eng_formats.py",
+                  "coq/Run_CloudEvents.v coq/RunFormatsSound.v coq/RunCloudEventsSound.v harness/jgen harness/cmd/fmth harness/cmd/cloudh lib/eng_formats.py",
           "serves_properties": ["C14", "C18"], "kind_free_text": "Coq model + proofs; Go differential drivers; vm_compute comparison"}
 
 
@@ -230,7 +230,7 @@ MANIFEST["C14"] = {
              "the value's JSON image = invalid UTF-8 bytes replaced by U+FFFD), render_single_line, envelope_members; Formatters.v: formatter_frame, "
              "formatter_error_forwards_nothing, jff_forward_iff / jff_error_iff, filter_forward_iff, format_table_lww (all interleavings of atomic table steps); "
              "tie: fmth runs generated payloads x types x times x predicates x tables on the real nodes, Run_Formatters.mismatches compares byte for byte in vm_compute; "
-             "race detector stress on FormattedAs/Format"),
+             "race detector stress on FormattedAs/Format; RunFormatsSound.v: mismatches cs = [] <-> every case accepted (declarative reading of the verdict, both directions)"),
     "design_ref": "5.C14", "note": _NOTE, "technique": _TECH, "engine": "coq-formats"}
 
 
@@ -241,7 +241,8 @@ MANIFEST["C18"] = {
              "via Base64.decode_encode; serialized_hmac = the signer's result on exactly those bytes), sign_failure_not_forwarded, unlisted_never_signed, "
              "ce_document_parses; ce_fresh_ids_distinct_partial (PARTIAL: uniqueness of fresh ids only under the hypothesis that the id source does not repeat; base62 randomness "
              "is not modelled). Tie: cloudh runs the configuration product + random payload data on the real node; Run_CloudEvents.mismatches compares the stored document "
-             "byte for byte, decodes serialized inside Coq and compares it with the signer's recorded input"),
+             "byte for byte, decodes serialized inside Coq and compares it with the signer's recorded input; histories of Process/Rotate on one node; "
+             "RunCloudEventsSound.v: mismatches cs = [] <-> every case accepted (declarative reading of the verdict, both directions; indentation oracle boolean)"),
     "design_ref": "5.C18", "note": _NOTE, "technique": _TECH, "engine": "coq-formats"}
 
 
